@@ -89,6 +89,7 @@ func init() {
 		InstrFiles: []instrSpec{{File: "terminfo/terminfo.go", Time: true}}})
 	reg(&spec{ID: "C17", Pkg: "./harness/c17", Level: "exploration", ShardsQ: n, ShardsT: n, DeadQ: 240, DeadT: 2400, InstrFiles: tinfo})
 	reg(&spec{ID: "C18", Pkg: "./harness/c18", Level: "model_checking", ShardsQ: n, ShardsT: n, DeadQ: 240, DeadT: 2400})
+	reg(&spec{ID: "C19", Pkg: "./harness/c19", Level: "model_checking", Wasm: true, ShardsQ: 8, ShardsT: n, DeadQ: 240, DeadT: 2400})
 	reg(&spec{ID: "C20", Pkg: "./harness/c20", Level: "model_checking", ShardsQ: n, ShardsT: n, DeadQ: 240, DeadT: 1800})
 	reg(&spec{ID: "C16", Pkg: "./harness/c16", Level: "exploration", ShardsQ: n, ShardsT: n, DeadQ: 150, DeadT: 1500})
 }
@@ -142,6 +143,7 @@ func prepareBuild(sp *spec) (modfile, overlay string) {
 	}
 	add("export/tcell_export.go", "zz_verif_export.go")
 	add("export/tcell_export_native.go", "zz_verif_export_native.go")
+	add("export/tcell_export_wasm.go", "zz_verif_export_wasm.go")
 	add("export/terminfo_export.go", "terminfo/zz_verif_export.go")
 	add("export/views_export.go", "views/zz_verif_export.go")
 	if len(sp.InstrFiles) > 0 {
@@ -170,6 +172,13 @@ func build(sp *spec) string {
 	}
 	out, err := cmd.CombinedOutput()
 	if err != nil {
+		if sp.Wasm && bytes.Contains(out, []byte("github.com/gdamore/tcell/v2")) && !bytes.Contains(out, []byte("verif/")) {
+			// the build obligation of C19: the package must compile for js/wasm
+			v := hc.Violation{Property: sp.ID, Signature: "wasm-build", Desc: "GOOS=js GOARCH=wasm build of the package fails:\n" + string(out), Replay: map[string]string{"compiler_output": string(out)}}
+			path := writeReplay(sp.ID, v)
+			fmt.Printf("VIOLATION property=%s replay=%s\n  the package does not compile for js/wasm:\n%s\n", sp.ID, path, firstLines(string(out), 12))
+			os.Exit(1)
+		}
 		fmt.Printf("BROKEN: build of %s against %s failed:\n%s\n", sp.Pkg, repoDir(), out)
 		os.Exit(2)
 	}
